@@ -324,6 +324,16 @@ fn main() {
                         };
                         rec(json!({"ev":"app","op":"qos","res":res}));
                     }
+                    "mute" => {
+                        // from now on the server keeps whatever it would answer on channel 0 to itself
+                        // (a Connection.Close stays unanswered): a server that has gone silent
+                        net.with_reactor(|r, _| {
+                            if let Some(st) = r.as_any().downcast_mut::<Stamp>() {
+                                st.inner.hold.insert(0);
+                            }
+                        });
+                        rec(json!({"ev":"app","op":"mute","res":"ok"}));
+                    }
                     other => panic!("unknown op {}", other),
                 }
             }
